@@ -120,6 +120,57 @@ CLAIMED["C18"] = dict(
     technique="Lean 4 proof (decision logic stated outright) + exhaustive configuration-product correspondence",
 )
 
+CLAIMED["C03"] = dict(
+    category="proof",
+    text="Invariants over ALL event histories (any completion order, accept/reject, pick outcomes, 1..n-1 workers) of the "
+         "state-machine model of REPEX_state + scheduler loop from a fresh start: in-flight ensembles pairwise disjoint, "
+         "in-flight paths pairwise distinct, busy flag iff held by an in-flight job (ghost always busy), each held path "
+         "sits in its slot with non-zero own-ensemble weight, a two-ensemble job is [0-],[0+] started only when both were "
+         "idle and holds both, pins and work folders distinct, engine instances exclusive, and (scheduler-shaped "
+         "histories) assign_engines always finds a free instance with min(count, workers) instances per type. Tie: the real "
+         "REPEX_state state-for-state after every op (scripted numpy Generator subclass, fake store) + direct predicates.",
+    design_ref="DESIGN.md §6 C03",
+    technique="Lean 4 proof (invariant by induction over event histories) + state-for-state correspondence",
+)
+CLAIMED["C07"] = dict(
+    category="proof",
+    text="Stream identity = (SeedSequence entropy, spawn_key). For every fresh-start history the k-th job issued has "
+         "streams (seed,[k,j]) / (seed,[k,j,0]); all job streams pairwise distinct and different from the scheduler's; "
+         "restart_continues_ordinals + distinctness across one restart for any worker count with/without in-flight jobs; "
+         "chains of restarts: full when no job was in flight at the earlier restarts (incl. every one-worker chain), "
+         "_partial + a proved counterexample otherwise (open finding: ordinals re-used after a re-issue; found by this "
+         "proof); scheduler draws accounted. Tie: real generators' identities inside md_items over restart chains, plus "
+         "a tripwire showing every in-process draw of every engine class is made on the job's engine stream. numpy's "
+         "independence of distinct streams is assumed, not modelled.",
+    design_ref="DESIGN.md §6 C07",
+    technique="Lean 4 proof (spawn-counter invariant over issue logs) + stream-identity correspondence",
+)
+CLAIMED["C09"] = dict(
+    category="proof",
+    text="shoot: accept iff status ACC; shooting index interior (draw request integers 1 (L-1)); an accepted trial starts "
+         "and ends outside on allowed sides, stays inside in between, crosses the middle interface, respects maxlength, "
+         "contains the shooting point at generated[3], time origin consistent, non-zero own-ensemble weight; exact "
+         "acceptance rule accept <-> xi <= n_old/n_new (shoot_threshold, for the repaired add_to_path; the asIs "
+         "counterexample kept); run_md replaces the path only on ACC. wire_fencing: accept iff ACC, membership of accepted "
+         "paths, rejected move returns the old frames. Tie: the real shoot/wire_fencing/run_md/add_to_path with a scripted "
+         "engine and scripted generator, exhaustive small grids incl. every floor boundary of the length bound.",
+    design_ref="DESIGN.md §6 C09",
+    technique="Lean 4 proof over path/engine-stream models + exhaustive scripted-engine correspondence",
+)
+CLAIMED["C17"] = dict(
+    category="proof",
+    text="Scheduler half: for every scheduler history (starts, closing initiate, steps; any outcomes and completion order) "
+         "from a fresh state: cstep = cstep0 + completed moves, never beyond the target, jobs in flight = min(workers, steps "
+         "left); a finished run completed exactly steps - cstep0 moves, cstep = steps, nothing in flight (incl. restarts "
+         "with fewer remaining steps than workers, repaired 2596063); no deadlock while steps are left. Runner half: "
+         "exactly-once, FIFO, no result lost, clean stop for every accepted event trace of the runner transition system. "
+         "Tie: the REAL scheduler() with a synchronous runner over chains of process lives (finish / crash / restart with "
+         "same, larger, barely larger step counts) mirrored op by op to the model; the real aiorunner's event traces "
+         "validated by the Lean acceptor (trace validation: asyncio/ProcessPool internals not modelled).",
+    design_ref="DESIGN.md §6 C17",
+    technique="Lean 4 proof (counter invariants over histories; runner protocol invariants) + real-scheduler mirroring and trace validation",
+)
+
 NOT_YET = "check not built yet at this commit (work in progress; see DESIGN.md §8 work order)"
 
 
